@@ -54,6 +54,41 @@ inductive Op (α : Type) where
   | andL (h : Nat) (xs : List α) | andE (h : Nat) (x : α)
   | subL (h : Nat) (xs : List α) | subE (h : Nat) (x : α)
   | addH (h g : Nat) | andH (h g : Nat) | subH (h g : Nat)      -- the right operand is another ulist
+  -- the inherited in-place list operations (:72-110): the list operation, then first occurrences are kept
+  | append (h : Nat) (x : α) | extend (h : Nat) (xs : List α) | iadd (h : Nat) (xs : List α)
+  | insert (h : Nat) (i : Nat) (x : α) | setI (h : Nat) (i : Nat) (x : α) | imul (h : Nat) (n : Nat)
+
+/-- the handle an operation writes in place, if any (all other operations allocate a new handle) -/
+def Op.target : Op α → Option Nat
+  | .append h _ | .extend h _ | .iadd h _ | .insert h _ _ | .setI h _ _ | .imul h _ => some h
+  | _ => none
+
+/-- `list.insert(i, x)` for `0 ≤ i` (an index beyond the end appends) -/
+def insertAt (u : List α) (i : Nat) (x : α) : List α := u.take i ++ x :: u.drop i
+
+/-- `list * n` -/
+def repeatN (u : List α) : Nat → List α
+  | 0 => []
+  | n + 1 => u ++ repeatN u n
+
+/-- in-place operation on handle `h`: the new contents (`none`: the operation raises, nothing changes) -/
+def inplace (u : List α) : Op α → Option (List α)
+  | .append _ x => some (mk (u ++ [x]))
+  | .extend _ xs => some (mk (u ++ xs))
+  | .iadd _ xs => some (mk (u ++ xs))
+  | .insert _ i x => some (mk (insertAt u i x))
+  | .setI _ i x => if i < u.length then some (mk (u.set i x)) else none        -- IndexError
+  | .imul _ n => some (mk (repeatN u n))
+  | _ => none
+
+/-- an in-place operation rewrites its target `h`; one that raises (or a dangling handle) changes nothing -/
+def stepIn (heap : List (List α)) (h : Nat) (op : Op α) : List (List α) :=
+  match heap[h]? with
+  | some u =>
+    match inplace u op with
+    | some u' => heap.set h u'
+    | none => heap
+  | none => heap
 
 def step (heap : List (List α)) : Op α → List (List α)
   | .new xs => heap ++ [mk xs]
@@ -67,6 +102,12 @@ def step (heap : List (List α)) : Op α → List (List α)
   | .addH h g => heap ++ [addList (heap.getD h []) (heap.getD g [])]
   | .andH h g => heap ++ [andList (heap.getD h []) (heap.getD g [])]
   | .subH h g => heap ++ [subList (heap.getD h []) (heap.getD g [])]
+  | .append h x => stepIn heap h (.append h x)
+  | .extend h xs => stepIn heap h (.extend h xs)
+  | .iadd h xs => stepIn heap h (.iadd h xs)
+  | .insert h i x => stepIn heap h (.insert h i x)
+  | .setI h i x => stepIn heap h (.setI h i x)
+  | .imul h n => stepIn heap h (.imul h n)
 
 def run (ops : List (Op α)) : List (List α) := ops.foldl step []
 
@@ -128,6 +169,17 @@ def getKey (d : D V) (k : String) : Res V :=
 
 /-- `d + other` (:116-118) and `d | other` (:202): copy, then update -/
 def add (d : D V) (other : List (String × V)) : D V := { d with items := setAll d.items other }
+
+/-- how `Dict.__add__` (= `tree_update`, src/pyg_base/_dict.py:96-97) combines the items of a `Dict` with those of
+another mapping.  The instance for `Val` is C15's `Tree.itemsToTree (Tree.items other) items` (PygModel/DictAdd.lean). -/
+class TreeAdd (V : Type) where
+  treeAdd : List (String × V) → List (String × V) → Res (List (String × V))
+
+/-- `d + other` with the receiver's class: `Dict` (class 1) overrides `__add__` by `tree_update` (a recursive merge when
+both sides hold a dict under one key, C15); `dictattr` and its other subclasses copy and update -/
+def addC [TreeAdd V] (d : D V) (other : List (String × V)) : Res (D V) :=
+  if d.cls = 1 then (TreeAdd.treeAdd d.items other).map fun kvs => { d with items := kvs }
+  else pure (add d other)
 
 /-- `d.relabel(**relabels)` (:272-273 with `relabel` :325): `type(self)(**{m.get(k, k) : v for k, v in items})` -/
 def relabel (d : D V) (m : List (String × String)) : D V :=
